@@ -9,15 +9,21 @@ from ..backend import c4_encode, C4_CHARSET, real_digest
 MIB = 1024 * 1024
 LIB7 = ["c4", "md5", "sha1", "xxh128", "xxh3", "xxh32", "xxh64"]
 CLI6 = ["c4", "md5", "sha1", "xxh128", "xxh3", "xxh64"]
+LAYOUTS = ["dense", "hole-start", "hole-middle", "hole-end"]
 
 
 def loops(max_n, subsets):
     def fn(b, sym):
         import ascmhl.hasher as HA
+        # how the bytes lie on the medium (a sparse file's holes read as zeros): the modelled file system has no such notion - a file is
+        # its bytes - so the choice only shapes the real files of replays, conformance runs and the witness corpus
+        layout = sym.choose("physical_layout", LAYOUTS)
         n = sym.int("n", 0, max_n)
+        if layout != "dense":
+            sym.assume(n >= 600 * 1024)  # (smaller files are laid out densely anyway: they are covered by the dense case)
         if not b.real:
             b.world.max_reads = 40 * (max_n // MIB + 3)
-        b.mkfile("R/f.bin", 7, size=n)
+        b.mkfile("R/f.bin", 7, size=n, layout=layout)
         path = b.p("R/f.bin")
         exp = {f: b.H(f, "R/f.bin") for f in LIB7}
         # streaming single-format entry point
@@ -85,10 +91,13 @@ def _raw(f, data):
 
 def entry_points(max_n, fsets):
     def fn(b, sym):
+        layout = sym.choose("physical_layout", LAYOUTS)
         n = sym.int("n", 0, max_n)
+        if layout != "dense":
+            sym.assume(n >= 600 * 1024)
         if not b.real:
             b.world.max_reads = 400 * (max_n // MIB + 3)
-        b.mkfile("R/clip.mov", 9, size=n)
+        b.mkfile("R/clip.mov", 9, size=n, layout=layout)
         fmts = sym.choose("formats", fsets)
         order = sym.flag("reverse_h_order")
         hs = list(fmts)[::-1] if order else list(fmts)
